@@ -70,6 +70,9 @@ pub struct MNode {
     pub undeclared: bool,
     /// Element: namespace prefix as written
     pub prefix: Option<String>,
+    /// Attr created with the name `xmlns` / `xmlns:…`: a namespace declaration, which the library keeps
+    /// apart from `attributes()`; once attached it is no longer tracked
+    pub nsdecl: bool,
 }
 
 #[derive(Clone, Debug)]
@@ -242,6 +245,7 @@ impl Model {
             value_free: false,
             undeclared: false,
             prefix: None,
+            nsdecl: false,
         });
         self.nodes.len() - 1
     }
@@ -931,6 +935,10 @@ impl Model {
         if a.doc != e.doc {
             return Plan::fail(vec![ErrClass::WrongDoc]);
         }
+        if a.nsdecl {
+            // not an attribute for the library: whatever happens, the declaration is forgotten afterwards
+            return Plan::lenient("namespace declaration attached as an attribute node");
+        }
         match a.owner_el {
             Some(o) if o == el => {
                 let mut p = Plan::either(vec![ErrClass::InUse], "attribute already on this element");
@@ -1342,6 +1350,9 @@ impl Model {
                     Some(am) => am,
                     None => self.adopt_new(a.key, post, doc),
                 };
+                if let Some((p, _)) = a.qname.split_once(':') {
+                    self.nodes[am].prefix = Some(p.to_string());
+                }
                 attrs.push(am);
             }
             let old: Vec<Mid> = self.nodes[m].attrs.clone();
